@@ -424,3 +424,52 @@ fn c08_fresh_peer_request_is_ignored() {
 fn c08_known_bitfield_before_handshake_is_served() {
     served_without_handshake(true);
 }
+
+// ---------------------------------------------------------------------------------------------
+// C12: a short manager history that crosses a Choke.  The connection task keeps its partial
+// piece when the peer chokes us (PeerHandler::handle_choke only sets a flag and informs the
+// manager), so PieceDone / PieceCancel may still arrive afterwards; Session::handle_piece_done
+// and handle_piece_cancel panic when the peer record has no assigned piece.
+
+// @prop C12
+// @fn Peer::handle_unchoke, Peer::handle_choke, Peer::handle_have, Peer::handle_piece, Session::handle_piece_done / handle_piece_cancel (fragments transcribed, including their panic!)
+// @bound 3 pieces, one peer; history: [Have(i)] Unchoke(choice) Choke then PieceDone or PieceCancel, every advertised set and every chooser answer
+// @assume the connection task can report PieceDone/PieceCancel after a Choke because it keeps its piece buffer across the Choke (PeerHandler::handle_choke, read; not encodable: nested coroutine)
+// @desc after unchoke -> (piece requested) -> choke, a late PieceDone or PieceCancel from that connection does not make the manager panic ("Piece downloaded but not requested"), and leaves no stale reservation
+#[kani::proof]
+#[kani::unwind(6)]
+fn c12_history_done_or_cancel_after_choke() {
+    let m = mk_simple(NP, 4, 12);
+    let mut status = vec![Status::Missing, Status::Missing, Status::Missing];
+    let mut peers = [fresh_peer(NP), fresh_peer(NP)];
+    let connected = [true, false];
+    let mut i = 0;
+    while i < NP {
+        peers[0].pieces[i] = kani::any();
+        i += 1;
+    }
+    // Unchoke: the manager assigns a piece (the history is only interesting if it does)
+    let chosen = any_choice(&peers[0], &status);
+    kani::assume(chosen.is_some());
+    let _ = peers[0].handle_unchoke(chosen, &mut status, &m);
+    // Choke
+    peers[0].handle_choke(&mut status);
+    // late PieceDone / PieceCancel (src/session.rs)
+    let done: bool = kani::any();
+    match peers[0].piece_index {
+        Some(idx) => {
+            if done {
+                status[idx] = Status::Have;
+            } else {
+                release(&mut status, idx);
+            }
+        }
+        None => panic!("Piece downloaded but not requested (manager panic: the peer record lost its assignment on Choke)"),
+    }
+    let chosen = any_choice(&peers[0], &status);
+    let _ = peers[0].handle_piece(chosen, &mut status, &m);
+    assert!(reservations_consistent(&status, &peers, &connected), "no stale reservation after the history");
+    kani::cover!(done, "late PieceDone");
+    kani::cover!(!done, "late PieceCancel");
+    std::mem::forget(peers);
+}
